@@ -671,7 +671,7 @@ ldb_versions_mark_file_number(ldb_versions_t *v, uint64_t n) {
     if (i == g_nmarked)
       g_marked[i] = n;
     if (i == g_nreplayed - 1 && g_replayed[i] == n)
-      g_replayed_ok[i] = 1;
+      g_replayed_ok[i] = VP_STRICT_LOGOPEN ? !g_open_failed[i] : 1;
   }
   g_nmarked++;
   if (v->next_file_number <= n)
